@@ -25,6 +25,7 @@ func main() {
 	tier := flag.String("tier", "", "quick | thorough (default: $VERIF_TIER or quick)")
 	list := flag.Bool("list", false, "list properties and their rules")
 	manifest := flag.Bool("manifest", false, "print MANIFEST.json for the registered checks")
+	engine := flag.String("engine", "", "debug: run one engine and print all its results")
 	verbose := flag.Bool("v", false, "print every obligation")
 	flag.Parse()
 
@@ -41,6 +42,9 @@ func main() {
 		}
 		props.WriteManifest(os.Stdout, all)
 		return
+	}
+	if *engine != "" {
+		os.Exit(props.RunEngine(props.Config{Repo: *repo, Verif: *verif, Tier: *tier, Verbose: *verbose}, *engine))
 	}
 	if *list {
 		props.List(os.Stdout)
